@@ -38,15 +38,50 @@ type c17Case struct {
 	End string `json:"end"`
 	// OuterVary: an outer handler has already put "Vary: Accept-Encoding" on every response
 	// before the engine is entered
-	OuterVary bool   `json:"outer_handler_sets_vary"`
-	Seed      string `json:"seed"`
+	OuterVary bool `json:"outer_handler_sets_vary"`
+	// CK: the configured cookie when Cookie == "lattice"
+	CK   *ckCfg `json:"cookie_configured,omitempty"`
+	Seed string `json:"seed"`
+}
+
+// ckCfg is a configured handshake cookie (one point of the attribute lattice).
+type ckCfg struct {
+	Name     string `json:"name"`
+	Path     string `json:"path"`
+	MaxAge   int    `json:"max_age"`
+	Secure   bool   `json:"secure"`
+	HttpOnly bool   `json:"http_only"`
+	SameSite int    `json:"same_site"` // http.SameSite value
+	Domain   string `json:"domain"`
+}
+
+// expectedCookie is the reference model of the documented normalisation: name defaults to "io",
+// path to "/", SameSite to Lax, HttpOnly is on by default; every other attribute is the
+// configured one.
+func expectedCookie(k ckCfg) (name, path string, maxAge int, secure bool, httpOnly *bool, sameSite http.SameSite, domain string) {
+	name, path = k.Name, k.Path
+	if name == "" {
+		name = "io"
+	}
+	if path == "" {
+		path = "/"
+	}
+	sameSite = http.SameSite(k.SameSite)
+	if sameSite == http.SameSiteDefaultMode {
+		sameSite = http.SameSiteLaxMode
+	}
+	if k.HttpOnly {
+		t := true
+		httpOnly = &t // configured on: must be on; configured off (Go's zero value): the default applies, not judged
+	}
+	return name, path, k.MaxAge, k.Secure, httpOnly, sameSite, k.Domain
 }
 
 var c17Origins = []string{"", "https://a.example", "https://b.example", "https://evil.example", "https://a.example.evil.test", "null", "https://sub.a.example"}
 
 func genC17(rng *rand.Rand) c17Case {
 	c := c17Case{
-		Cookie:   []string{"", "default", "named", "attrs"}[rng.IntN(4)],
+		Cookie:   []string{"", "default", "named", "attrs", "lattice", "lattice"}[rng.IntN(6)],
 		Cors:     []string{"", "star", "fixed", "list", "regexp", "true", "false", "listmixed"}[rng.IntN(8)],
 		Creds:    rng.IntN(2) == 0,
 		PreCont:  rng.IntN(4) == 0,
@@ -63,6 +98,17 @@ func genC17(rng *rand.Rand) c17Case {
 	}
 	c.End = []string{"", "client-close", "server-close-pending-poll", "upgrade-pending-poll"}[rng.IntN(4)]
 	c.OuterVary = rng.IntN(4) == 0
+	if c.Cookie == "lattice" {
+		c.CK = &ckCfg{
+			Name:     []string{"", "sticky"}[rng.IntN(2)],
+			Path:     []string{"", "/x"}[rng.IntN(2)],
+			MaxAge:   []int{0, 3600}[rng.IntN(2)],
+			Secure:   rng.IntN(2) == 0,
+			HttpOnly: rng.IntN(2) == 0,
+			SameSite: int([]http.SameSite{http.SameSiteDefaultMode, http.SameSiteLaxMode, http.SameSiteStrictMode, http.SameSiteNoneMode}[rng.IntN(4)]),
+			Domain:   []string{"", "example.com"}[rng.IntN(2)],
+		}
+	}
 	return c
 }
 
@@ -191,6 +237,8 @@ func runC17(c c17Case, r *rep.Report) (key, msg string, stats map[string]int64) 
 				so.SetCookie(&http.Cookie{Name: "sticky", Path: "/x"})
 			case "attrs":
 				so.SetCookie(&http.Cookie{Name: "io", Path: "/", MaxAge: 3600, Secure: true, SameSite: http.SameSiteStrictMode, Domain: "example.com"})
+			case "lattice":
+				so.SetCookie(&http.Cookie{Name: c.CK.Name, Path: c.CK.Path, MaxAge: c.CK.MaxAge, Secure: c.CK.Secure, HttpOnly: c.CK.HttpOnly, SameSite: http.SameSite(c.CK.SameSite), Domain: c.CK.Domain})
 			}
 			if co := c.corsOptions(); co != nil {
 				so.SetCors(co)
@@ -274,6 +322,16 @@ func runC17(c c17Case, r *rep.Report) (key, msg string, stats map[string]int64) 
 					if ck.Name != eff.Name || ck.Path != eff.Path || ck.HttpOnly != eff.HttpOnly || ck.SameSite != eff.SameSite || ck.MaxAge != eff.MaxAge || ck.Secure != eff.Secure || ck.Domain != eff.Domain {
 						key, msg = "c17-cookie-attributes", fmt.Sprintf("Set-Cookie %q does not carry the configured attributes %+v", hs.Header.Get("Set-Cookie"), *eff)
 						return
+					}
+					if c.CK != nil {
+						// against the configuration itself (reference model of the documented defaults),
+						// not against what the server made of it
+						name, path, maxAge, secure, httpOnly, sameSite, domain := expectedCookie(*c.CK)
+						if ck.Name != name || ck.Path != path || ck.MaxAge != maxAge || ck.Secure != secure || ck.SameSite != sameSite || ck.Domain != domain || (httpOnly != nil && ck.HttpOnly != *httpOnly) {
+							key, msg = "c17-cookie-attributes", fmt.Sprintf("Set-Cookie %q; configured %+v (defaults: name io, path /, SameSite Lax, HttpOnly on)", hs.Header.Get("Set-Cookie"), *c.CK)
+							return
+						}
+						stats["cookies_checked_against_the_configuration"]++
 					}
 				}
 				if k, m := checkCORS(c, origin, hs.Header, "handshake"); k != "" {
@@ -504,7 +562,7 @@ func corsStorm(r *rep.Report, kind string, perG int) {
 func TestC17(t *testing.T) {
 	r := rep.New(t, "C17")
 	defer r.Flush()
-	r.Rule("PRNG servers: cookie option {none, default, named+path, all attributes} x CORS policy {none, '*', fixed string, list, list with regexp, regexp, true, false} x credentials x preflightContinue x success status x methods/headers as string or list; 1-3 sessions each with a PRNG history of polls, posts and preflights from allowed, disallowed, look-alike and absent origins (JSONP in a fifth), six overlapping handshakes per cookie-configured server, and a real-time storm of concurrent preflights from different origins per reflecting policy; oracle: Set-Cookie exactly on the handshake response with value == session id and the configured attributes, initial_headers once per session, headers once per response, CORS headers against a reference policy model, preflight status/no session; distinct = option/history signature")
+	r.Rule("PRNG servers: cookie option {none, default, named+path, all attributes, a PRNG point of the attribute lattice name x path x Max-Age x Secure x HttpOnly x SameSite{default,Lax,Strict,None} x Domain judged against the configuration itself} x CORS policy {none, '*', fixed string, list, list with regexp, regexp, true, false} x credentials x preflightContinue x success status x methods/headers as string or list; 1-3 sessions each with a PRNG history of polls, posts and preflights from allowed, disallowed, look-alike and absent origins (JSONP in a fifth), six overlapping handshakes per cookie-configured server, and a real-time storm of concurrent preflights from different origins per reflecting policy; oracle: Set-Cookie exactly on the handshake response with value == session id and the configured attributes, initial_headers once per session, headers once per response, CORS headers against a reference policy model, preflight status/no session; distinct = option/history signature")
 	r.Assume("'responses of the session' are the responses produced by the session's transport (handshake, poll, data); protocol-error replies and preflight answers are written without the transport's header path")
 	r.Assume("for a fixed-string origin policy Vary: Origin is accepted either way (the value does not depend on the request)")
 	if r.Lane == 0 {
